@@ -528,6 +528,12 @@ class IMAPUserServer:
         #
         self.renaming: set[str] = set()
 
+        # CREATE, DELETE and RENAME change the tree of mailboxes in several
+        # steps (folders, db rows, active mailboxes). They are done one at a
+        # time.
+        #
+        self.namespace_lock = asyncio.Lock()
+
         # We also have a dict of asyncio.Event's for mailboxes that are "being
         # activated". If multiple tasks want a mailbox and it has not been
         # activated we use these asyncio.Events so that only one task actually
